@@ -37,7 +37,7 @@ ASSUMPTIONS = ["reply JSON is an object; ids and statuses are integers (domain o
                "BLE (stub stream): the GATT request layer is replaced by a stub that raises PDUStatusError for a rejected write (C17 covers the PDU layer)",
                "end-to-end streams: the session keys are given (pair-verify is C01's), the BLE pairing's model is built from the layout (the GATT database fetch is C16/C17's); the "
                "in-memory accessory is conformant (answers every item under the request's transaction id / in a well-formed HTTP reply); instance ids are unique over the database",
-               "BLE reads: a characteristic the accessory refused to read may be left out of the result (documented behaviour of that path); it must never be given a value"]
+               "BLE reads: a characteristic the accessory refused to read is left out of the result by the unchanged library (open known finding ble-e2e/read-refused-item-omitted); it must never be given a value"]
 EXPLANATION = "Lean theorems C13_* over models of format_characteristic_list / to_status_code / put paths (status table regenerated from source); differential tie on the public pairing methods"
 
 CODES = [0, -70402, 70410, 12345]
@@ -1048,9 +1048,13 @@ def read_oracle(t, op, log, r, raised, ctx=None):
             if not (isinstance(ent, dict) and "value" in ent and _same(ent["value"], v) and _status_of(ent) == 0):
                 P.append((f"{t}-e2e/read-value", what + f"; the accessory's value of {key} is {v!r} but the result has {ent!r}"))
         elif ent is None:
-            if t == "ble":  # the BLE read path documents that it leaves out what it could not read; tolerated, counted
+            if t == "ble":
+                # the BLE read path logs and skips a characteristic the accessory refused to read: the requested characteristic gets neither a
+                # value nor an error status.  The property's first sentence demands one of the two: recorded as an OPEN known finding
+                # (known_findings.json, signature ble-e2e/read-refused-item-omitted), reported on every run
                 if ctx is not None:
                     ctx.dist["ble-e2e read: rejected item left out of the result"] += 1
+                P.append(("ble-e2e/read-refused-item-omitted", what + f"; {key} was answered with status {st} but is missing from the result (neither value nor error status)"))
             else:
                 P.append((f"{t}-e2e/read-error-dropped", what + f"; {key} was answered with status {st} but is missing from the result"))
         elif not isinstance(ent, dict) or "value" in ent or _status_of(ent) in (0, None):
